@@ -85,6 +85,46 @@ INDEX_LEDGER = {
     ("utils::nonempty_vec::NonEmptyVec<control_flow_graph::basic_block::BasicBlock>", "&usize"): (2, "complete_basic_block: predecessor indices are indices of existing blocks (C12.1)"),
     ("utils::nonempty_vec::NonEmptyVec<control_flow_graph::basic_block::BasicBlock>", "usize"): (3, "complete_basic_block / SSA: the block just pushed and frontier indices"),
 }
+# C01.12: calls of std functions documented to panic (unwrap/expect of Option and of Result with ANY error type, and the
+# position-taking Vec/slice/str methods), hand-written code reachable from main, counted per (function, payload type)
+# over the whole program - not per enclosing function, so that moving or renaming code changes nothing.
+API_RE = re.compile(
+    r"(?:std|core)::(option::Option::<T>::(?:unwrap|expect)|result::Result::<T, E>::(?:unwrap|expect|unwrap_err|expect_err))$"
+    r"|(?:std|alloc)::vec::Vec::<T, A>::(insert|remove|swap_remove|drain|split_off|splice)$"
+    r"|(?:std|alloc)::collections::VecDeque::<T, A>::(insert|remove|swap|drain|split_off)$"
+    r"|(?:std|alloc)::string::String::(insert|insert_str|remove|drain|replace_range|split_off)$"
+    r"|(?:core|std)::slice::<impl \[T\]>::(split_at|split_at_mut|swap|copy_from_slice|clone_from_slice|copy_within|chunks|chunks_exact|chunks_mut|rchunks|windows|rotate_left|rotate_right|select_nth_unstable)$"
+    r"|(?:core|std)::str::<impl str>::(split_at|split_at_mut)$"
+    r"|(?:core|std)::cell::RefCell::<T>::(borrow|borrow_mut)$"
+    r"|(?:core|std)::iter::Iterator::step_by$"
+)
+API_LEDGER = {
+    ("Result::expect", "std::io::Error"): (1, "StdoutWriter::write_messages: environment fault (stdout closed)"),
+    ("Result::expect", "codespan_reporting::files::Error"): (1, "StdoutWriter::write_reports: only for an invalid label (C04)"),
+    ("Result::expect", "anyhow::Error"): (1, "update_declarations: NonEmptyVec from a version range that is never empty"),
+    ("Option::expect", "&control_flow_graph::basic_block::BasicBlock"): (7, "Cfg successors / branches / intervals: block indices stored in a block are indices of the same vector (C12.1/C12.4)"),
+    ("Option::expect", "&mut <Cfg as static_single_assignment::traits::SSAConfig>::BasicBlock"): (2, "insert_ssa_variables_impl: frontier / dominator indices of the same block vector"),
+    ("Option::expect", "&std::collections::HashSet<intermediate_representation::variable_meta::VariableUse>"): (6, "VariableKnowledge getters: documented precondition `cache_variable_use ran`; C09 checks every consumer runs after the cache pass"),
+    ("Option::expect", "&std::ffi::OsStr"): (1, "include_library: library paths are built from file names"),
+    ("Option::expect", "num_bigint::BigInt"): (1, "Curve::prime: parse of a decimal literal (C11.1 checks the literals)"),
+    ("Option::expect", "std::ops::Range<usize>"): (1, "update_declarations: unwrap_or(0..1) precedes"),
+    ("Option::expect", "std::path::PathBuf"): (1, "FileStack::add_include: current_location is set by take_next before any include is added (C19)"),
+    ("Option::unwrap", "&&intermediate_representation::value_meta::ValueReduction"): (1, "phi propagation: next() of a set whose length was tested to be 1 (C06.3)"),
+    ("Option::unwrap", "&VC"): (1, "VariableBlock::get_variable: only after the lookup found the symbol"),
+    ("Option::unwrap", "&circomspect_program_structure::ast::AssignOp"): (2, "remove_anonymous_from_expression: positions found in the same name list (C18.4)"),
+    ("Option::unwrap", "&circomspect_program_structure::ast::Expression"): (7, "remove_anonymous_from_expression: var_access is Some for the whole anonymous-component arm; signal positions from the same list (C18.4)"),
+    ("Option::unwrap", "&circomspect_program_structure::control_flow_graph::Cfg"): (2, "AnalysisRunner::get_*: the entry was inserted on the line above (C03.5 cache rule)"),
+    ("Option::unwrap", "&circomspect_program_structure::template_data::TemplateData"): (2, "remove_anonymous_from_expression: after the `template not found` error return (C18.4 template lookup)"),
+    ("Option::unwrap", "&mut utils::environment::VariableBlock<VC>"): (1, "RawEnvironment::add_variable: last_mut after the non-empty assertion"),
+    ("Option::unwrap", "&str"): (1, "FileID::to_uri: the path comes from a UTF-8 string"),
+    ("Option::unwrap", "circomspect_program_structure::control_flow_graph::Cfg"): (2, "AnalysisRunner::take_*: after cache_* returned Ok"),
+    ("Option::unwrap", "num_bigint::BigInt"): (1, "complement_256: from_radix_le of digits < 2"),
+    ("Option::unwrap", "usize"): (3, "syntax sugar remover: get_line of a position inside the file (C04); position() of a name taken from the same list"),
+    ("Vec::insert", "intermediate_representation::ir::Statement"): (1, "BasicBlock::prepend_statement: insert(0, ..) cannot be out of range"),
+    ("Vec::remove", "circomspect_program_structure::ast::Expression"): (2, "remove_tuples_from_statement: remove(0) in a loop bounded by the tested common length (C18.3)"),
+    ("str::split_at", "?"): (1, "split_string: C01.6 checks the index is moved to a character boundary <= len"),
+}
+
 INDEX_RE = re.compile(r"ops::Index(Mut)?<[^>]*>>::index(_mut)?$|impl std::ops::Index(Mut)?<I> for [^>]*>::index(_mut)?$")
 
 PANIC_RE = re.compile(r"(core|std)::panicking::(panic|panic_fmt|assert_failed|panic_explicit|unreachable_display|panic_display|panic_str)|core::panicking::panic_const")
@@ -204,6 +244,76 @@ def rule_index_ledger(ctx):
         ok = ent is not None and v <= ent[0]
         ctx.check(R, "index/%s[%s]" % k, ok, ("%d site(s), ledger %d: %s" % (v, ent[0], ent[1])) if ok else "indexing without a ledger entry (found %d, reviewed %d): %s" % (v, ent[0] if ent else 0, where[k][-3:]))
     ctx.floor(R, "ledgered index kinds present", sum(1 for k in INDEX_LEDGER if k in cnt), 10)
+
+
+def _api_key(p, t):
+    m = re.search(r"(Option|Result|Vec|VecDeque|String|RefCell)::(?:<[^>]*>::)?(\w+)$", p)
+    if m:
+        name = "%s::%s" % (m.group(1), m.group(2))
+    else:
+        m = re.search(r"<impl (\[T\]|str)>::(\w+)$", p)
+        name = "%s::%s" % ("slice" if m and m.group(1) == "[T]" else "str", m.group(2)) if m else p
+    g = t.get("gargs") or []
+    ty = g[1] if name.startswith("Result::") and len(g) > 1 else (g[0] if g else "?")
+    return (name, ty)
+
+
+def _guarded_lookup(file, line):
+    """is the unwrap / expect at file:line applied to `M.get(K)` (get_mut, remove) on a path on which `M.contains_key(K)`
+    holds?  Then it cannot fail and needs no ledger entry."""
+    import facts as _facts
+
+    def norm(e):
+        return render(strip(e)).replace(" ", "").lstrip("&")
+
+    for q, fn in fns_in_file(file):
+        if not fn.get("body"):
+            continue
+        for n in walk(fn["body"]):
+            if n["k"] == "MethodCall" and n["method"] in ("unwrap", "expect") and n.get("line") == line:
+                r = strip(n["recv"])
+                if r["k"] != "MethodCall" or r["method"] not in ("get", "get_mut", "remove") or len(r["args"]) != 1:
+                    continue
+                m, key = norm(r["recv"]), norm(r["args"][0])
+                for fc in conditions_to(fn["body"], n) or []:
+                    if fc[0] == "if" and fc[2]:
+                        c = strip(fc[1])
+                        if c["k"] == "MethodCall" and c["method"] == "contains_key" and len(c["args"]) == 1 and norm(c["recv"]) == m and norm(c["args"][0]) == key:
+                            return True
+    return False
+
+
+def rule_api_ledger(ctx):
+    R = "C01.12"
+    ctx.rule(R, "every call of a std function that is documented to panic on a bad argument or an absent value (Option/Result unwrap and expect with any payload, Vec/slice/str methods that take a position, RefCell borrows) in hand-written code reachable from main is a reviewed ledger entry (per function and payload type, program-wide count)")
+    idx = mirlib.index()
+    seen = reachable_from_main()
+    if seen is None:
+        return ctx.missing(R, "circomspect::main")
+    cnt = collections.Counter()
+    where = {}
+    discharged = []
+    for f in seen:
+        fn = idx.get(f)
+        if fn is None or fn.get("gen"):
+            continue
+        for _i, t in mirlib.calls_of(fn):
+            p = t.get("pretty") or ""
+            if t.get("exp") or not API_RE.search(p):
+                continue
+            k = _api_key(p, t)
+            if k[0] in ("Option::unwrap", "Option::expect") and _guarded_lookup(fn["file"], t["line"]):
+                discharged.append("%s:%s" % (fn["file"], t["line"]))
+                continue
+            cnt[k] += 1
+            where.setdefault(k, []).append("%s (%s:%s)" % (fn["pretty"], fn["file"], t["line"]))
+    ctx.table("unwraps of a map lookup under a membership test of the same map and key (discharged locally)", discharged)
+    ctx.table("panicking std calls", ["%dx %s<%s>" % (v, k[0], k[1]) for k, v in sorted(cnt.items())])
+    for k, v in sorted(cnt.items()):
+        ent = API_LEDGER.get(k)
+        ok = ent is not None and v <= ent[0]
+        ctx.check(R, "api/%s<%s>" % k, ok, ("%d site(s), ledger %d: %s" % (v, ent[0], ent[1])) if ok else "call that panics on an absent value / bad position without a ledger entry (found %d, reviewed %d): %s" % (v, ent[0] if ent else 0, where[k][-3:]))
+    ctx.floor(R, "ledgered std call kinds present", sum(1 for k in API_LEDGER if k in cnt), 20)
 
 
 def regex_lang(rx):
@@ -337,7 +447,9 @@ def run(ctx):
     ctx.include("C01.5", "arithmetic preconditions: zero-tested divisors, bounded exponents (shared with C16.1/C16.2); the constant evaluator takes fallible results only on Ok and never shortcuts them (C06.1); only versioned names enter the value environment (C06.4)", c16.rule_divisors, c16.rule_exponents, c16.rule_shift_recursion, c06.rule_operator_table, c06.rule_environment)
     rule_byte_cuts(ctx)
     rule_index_ledger(ctx)
+    rule_api_ledger(ctx)
     rule_main_component_filled(ctx)
     ctx.include("C01.8", "discharges the lifting panics: desugaring forgets no position and eliminates / rejects the node kinds the lifting cannot handle (shared with C18.1/C18.2/C18.3)", c18.rule_flow, c18.rule_elimination, c18.rule_contains)
+    ctx.include("C01.13", "discharges the indexing and unwraps of the anonymous-component expansion: the argument list is matched against the declared inputs by the same list the expansion walks (shared with C18.4)", c18.rule_binding)
     ctx.include("C01.9", "discharges Meta::get_file_id and the renderer's label assertion: every node gets its file id, spans are ordered token boundaries (shared with C04.4/C04.5)", c04.rule_grammar_spans, c04.rule_fill)
     ctx.include("C01.10", "discharges indexing of template arguments: an instantiation is inspected only after its name and arity were tested (shared with C11.3)", lambda c: c11.rule_thresholds(c, c11.rule_primes(c) or {}), only=["name-and-arity", "update_components", "size-is-first-argument"])
